@@ -108,7 +108,10 @@ def run(ck):
                       ('R1.10', 'a declared name is in scope for the declarators and statements that follow it'),
                       ('R1.11', 'the default clause is placed where the source puts it'),
                       ('R1.12', 'AST fields are read from the grammar field of the same name'),
-                      ('R1.13', 'the walker hands the parts of an AST node to the visitor in the reviewed positions')):
+                      ('R1.13', 'the walker hands the parts of an AST node to the visitor in the reviewed positions'),
+                      ('R1.14', 'hand-written property descriptions name the accessors of that very property'),
+                      ('R1.15', 'string constants in the generated code denote the source string (shared with C16)'),
+                      ('R1.16', 'the header on disk is the translator output of this run (shared with C15)')):
         ck.rule(rid, text)
 
     disp = display_tables(L)
@@ -599,3 +602,88 @@ def run(ck):
                   'arguments derive from AST fields %s' % row if row == exp else 'arguments derive from AST fields %s, reviewed contract: %s' % (row, exp), fn=fn['path'])
     ck.floor('R1.13', n_w, 11, 'visitor calls fed from AST fields')
     ck.ob('R1.13', 'all-contract-visitors-called', set(seen_calls) == set(WA), '', 'visitor calls checked: %s' % sorted(seen_calls))
+
+    # ---- R1.14 accessor table of metatype_tweak ------------------------------------------------------------------------------------------------
+    # a property read in a binding is emitted as a call of the `read` accessor of its description. The descriptions that are written by
+    # hand (Qt classes whose accessors are no Q_PROPERTY) must pair each name with its own getter and setter: Qt's convention is
+    # name() / isName() and setName(), compared without regard to case (strikeout / strikeOut). Rows are read from Property literals and
+    # from calls of a helper that builds one from its parameters.
+    def lit_str(e):
+        e = H.strip_refs(e)
+        while e.get('k') in ('MCall', 'Call'):
+            if e.get('k') == 'MCall' and e.get('m') in ('to_owned', 'into', 'to_string') and not e['args']:
+                e = H.strip_refs(e['recv'])
+            elif e.get('k') == 'Call' and (e.get('def') or '').endswith('Option::Some') and len(e['args']) == 1:
+                e = H.strip_refs(e['args'][0])
+            elif e.get('k') == 'Call' and (e.get('def') or '').split('::')[-1] in ('from', 'into') and len(e['args']) == 1:
+                e = H.strip_refs(e['args'][0])
+            else:
+                break
+        return e
+
+    rows = []
+    unread = []
+    for fn in L.fn_list:
+        if not fn['path'].startswith('metatype_tweak::'):
+            continue
+        bs_ = H.binding_sites(fn)
+        for st in walk(fn['body']):
+            if st.get('k') != 'Struct' or not (st.get('def') or '').endswith('metatype::Property'):
+                continue
+            flds = {f['f']: lit_str(f['e']) for f in st['fields']}
+            if 'read' not in flds and 'write' not in flds:
+                continue
+            ck.analysed(fn['path'])
+            vals = {k_: flds.get(k_) for k_ in ('name', 'read', 'write')}
+            if all(v is None or v.get('k') == 'Lit' for v in vals.values()):
+                rows.append((short(fn['path']), {k_: (v.get('v') if v is not None else None) for k_, v in vals.items()}, L.loc(st)))
+                continue
+            # helper form: the fields are parameters of fn; every call of fn is a row
+            idx = {}
+            for k_, v in vals.items():
+                if v is None:
+                    continue
+                b = bs_.get(v.get('hid')) if v.get('k') == 'Path' else None
+                if b is None or b['kind'] != 'param':
+                    idx = None
+                    break
+                idx[k_] = b['index']
+            if not idx:
+                unread.append((short(fn['path']), L.loc(st)))
+                continue
+            for f2 in L.fn_list:
+                if not f2['path'].startswith('metatype_tweak::'):
+                    continue
+                for c in H.calls_in(f2['body']):
+                    if (H.callee(c) or H.callee_decl(c)) != fn['path']:
+                        continue
+                    args = H.call_args(c)
+                    got = {k_: lit_str(args[i]) if i < len(args) else None for k_, i in idx.items()}
+                    if all(v is not None and v.get('k') == 'Lit' for v in got.values()):
+                        rows.append((short(f2['path']), {k_: got[k_].get('v') if k_ in got else None for k_ in ('name', 'read', 'write')}, L.loc(c)))
+                    else:
+                        unread.append((short(f2['path']), L.loc(c)))
+    for where, loc in unread:
+        ck.ob('R1.14', 'accessor-row-readable|%s' % where, False, loc, 'a property description with accessors is built from values the checker cannot read: form not understood')
+    for where, r, loc in rows:
+        nm = (r['name'] or '')
+        okr = r['read'] is None or r['read'].lower() in (nm.lower(), 'is' + nm.lower(), 'has' + nm.lower())
+        okw = r['write'] is None or r['write'].lower() == 'set' + nm.lower()
+        ck.ob('R1.14', 'accessors|%s|%s' % (where, nm), okr and okw, loc,
+              '%s: read %s(), write %s()' % (nm, r['read'], r['write']) if okr and okw else
+              'property `%s` is described with getter `%s` / setter `%s`: a binding that reads or writes it calls the accessor of another property' % (nm, r['read'], r['write']))
+    ck.floor('R1.14', len(rows), 18, 'hand-written property descriptions with accessors')
+
+    # ---- R1.15 string constants (shared with C16 R16.1) ---------------------------------------------------------------------------------------
+    import rules.c16 as c16
+    s16 = _core2.Shared(ck, 'R1.15', lambda r, k: r == 'R16.1' and (k.startswith('cxx-escaper-table') or k.startswith('string-constant-arm')), 'C16:',
+                        ' [a string constant spelled wrongly makes the eval function return another string]')
+    c16.run(s16)
+    ck.floor('R1.15', s16.count, 3, 'shared C16 R16.1 obligations on string constants')
+
+    # ---- R1.16 the header that is observed is the one just generated (shared with C15) ----------------------------------------------------------
+    import rules.c15 as c15
+    s15 = _core2.Shared(ck, 'R1.16', lambda r, k: (r == 'R15.4' and k.endswith('|skipped-only-if-same-bytes')) or (r == 'R15.5' and k in ('header-path-gets-header', 'both-outputs-written')), 'C15:',
+                        ' [the eval functions in a header left over from an earlier run compute the old expression]')
+    c15.run(s15)
+    ck.floor('R1.16', s15.count, 4, 'shared C15 obligations on the output writes')
